@@ -512,6 +512,22 @@ func (w *WEval) eval1(v ssa.Value) *Lay {
 			if k.Int64() == 0 {
 				return seqOf()
 			}
+			if l := w.constMakeWithStores(mk, int(k.Int64())); l != nil {
+				return l
+			}
+			// the make is one of several merged at once (only the capacity differs): the element stores
+			// go through the merged value
+			if refs := mk.Referrers(); refs != nil {
+				for _, r := range *refs {
+					if ph, ok := r.(*ssa.Phi); ok {
+						if k2, ok := sameConstLenMakes(ph); ok && k2 == int(k.Int64()) {
+							if l := w.constMakeWithStores(ph, k2); l != nil {
+								return l
+							}
+						}
+					}
+				}
+			}
 			return &Lay{K: "zero", W: int(k.Int64())}
 		}
 		return w.evalFilledMake(mk)
@@ -525,6 +541,17 @@ func (w *WEval) byteOf(v ssa.Value) *Lay {
 		if cv, ok := v.(*ssa.Convert); ok && isIntType(cv.X.Type()) {
 			v = cv.X
 			continue
+		}
+		// x & m with the low eight bits of m set: the low byte is that of x
+		if bo, ok := v.(*ssa.BinOp); ok && bo.Op == token.AND {
+			if m, isK := constInt(bo.Y); isK && m.Sign() >= 0 && new(big.Int).And(m, big.NewInt(0xff)).Int64() == 0xff {
+				v = bo.X
+				continue
+			}
+			if m, isK := constInt(bo.X); isK && m.Sign() >= 0 && new(big.Int).And(m, big.NewInt(0xff)).Int64() == 0xff {
+				v = bo.Y
+				continue
+			}
 		}
 		break
 	}
@@ -1613,6 +1640,13 @@ func (w *WEval) blockDead(b *ssa.BasicBlock) bool {
 }
 
 func (w *WEval) evalPhi(ph *ssa.Phi) *Lay {
+	// one of several make([]byte, k, <capacity>) of the same small constant length, none used except
+	// through this merge: k bytes, set by the element stores made through the merged value
+	if k, ok := sameConstLenMakes(ph); ok {
+		if l := w.constMakeWithStores(ph, k); l != nil {
+			return l
+		}
+	}
 	if ch, ok := w.pathPhi[ph]; ok {
 		return w.eval(ch)
 	}
@@ -2233,4 +2267,104 @@ func (w *WEval) runningOffsetFill(mk *ssa.MakeSlice, loopHdr *ssa.BasicBlock, ac
 	}
 	w.fillAcc[mk] = acc
 	return &Lay{K: "loop", S: coll, Items: []*Lay{seqOf(items...)}}
+}
+
+// constMakeWithStores: make([]byte, k, c) of a small constant length whose elements are then set by
+// `buf[i] = x` with constant i: the k bytes, each the byte stored (zero where nothing is). Every such store
+// must be the only one to its index and must come before every other use of the buffer (its block
+// dominates theirs, or it precedes them in their block). nil when the buffer has no such stores; an
+// unknown item when the stores do not have this shape.
+func (w *WEval) constMakeWithStores(mk ssa.Value, k int) *Lay {
+	if mk.Referrers() == nil || k > 16 {
+		return nil
+	}
+	stores := map[int]*ssa.Store{}
+	var uses []ssa.Instruction
+	bad := false
+	for _, r := range *mk.Referrers() {
+		ia, ok := r.(*ssa.IndexAddr)
+		if !ok {
+			if _, isDbg := r.(*ssa.DebugRef); !isDbg {
+				uses = append(uses, r)
+			}
+			continue
+		}
+		idx, isK := constInt(ia.Index)
+		if !isK || ia.Referrers() == nil {
+			bad = true
+			continue
+		}
+		for _, rr := range *ia.Referrers() {
+			switch st := rr.(type) {
+			case *ssa.Store:
+				if st.Addr != ssa.Value(ia) || stores[int(idx.Int64())] != nil {
+					bad = true
+				}
+				stores[int(idx.Int64())] = st
+			case *ssa.UnOp, *ssa.DebugRef:
+			default:
+				bad = true
+			}
+		}
+	}
+	if len(stores) == 0 {
+		return nil
+	}
+	if bad {
+		return unk("make([]byte, %d) with element stores that are not one constant-index store per position", k)
+	}
+	before := func(st *ssa.Store, u ssa.Instruction) bool {
+		if st.Block() != u.Block() {
+			return st.Block().Dominates(u.Block())
+		}
+		for _, ins := range st.Block().Instrs {
+			if ins == ssa.Instruction(st) {
+				return true
+			}
+			if ins == u {
+				return false
+			}
+		}
+		return false
+	}
+	var items []*Lay
+	for i := 0; i < k; i++ {
+		st := stores[i]
+		if st == nil {
+			items = append(items, &Lay{K: "zero", W: 1})
+			continue
+		}
+		for _, u := range uses {
+			if !before(st, u) {
+				return unk("make([]byte, %d): the store to position %d does not come before every use of the buffer", k, i)
+			}
+		}
+		items = append(items, w.byteOf(st.Val))
+	}
+	return seqOf(items...)
+}
+
+func sameConstLenMakes(ph *ssa.Phi) (int, bool) {
+	k := -1
+	for _, e := range ph.Edges {
+		mk, ok := e.(*ssa.MakeSlice)
+		if !ok {
+			return 0, false
+		}
+		n, isK := constInt(mk.Len)
+		if !isK || (k >= 0 && int(n.Int64()) != k) {
+			return 0, false
+		}
+		k = int(n.Int64())
+		if mk.Referrers() != nil {
+			for _, r := range *mk.Referrers() {
+				if r != ssa.Instruction(ph) {
+					if _, dbg := r.(*ssa.DebugRef); !dbg {
+						return 0, false
+					}
+				}
+			}
+		}
+	}
+	return k, k > 0
 }
